@@ -196,6 +196,16 @@ def query_files(draw):
                                    dtype='f8', data=data, mask=None,
                                    fill=None, attrs={}))
             meta['tbounds'] = True
+    # in-memory receivers sometimes have two unlimited dimensions (legal in
+    # the netCDF4 model; a classic save may refuse them - either way the
+    # receiver must not change)
+    if fs['route'] in ('create', 'from_ncf') and len(dims) >= 2 and \
+            draw(st.integers(0, 3)) == 0:
+        fixed = [d for d in dims if not d[2]]
+        need = 2 - (len(dims) - len(fixed))
+        for d in fixed[:max(need, 0)]:
+            d[2] = True
+        fs['multi_unlimited'] = True
     fs['qmeta'] = meta
     return fs
 
@@ -245,6 +255,9 @@ def save_formats(fs):
         return ['NETCDF3_CLASSIC', 'NETCDF4_CLASSIC', 'NETCDF4']
     if fs.get('kind') == 'ioapi':
         return ['NETCDF3_CLASSIC', 'NETCDF4_CLASSIC', 'NETCDF4']
+    if fs.get('multi_unlimited'):
+        return ['NETCDF3_CLASSIC', 'NETCDF4_CLASSIC', 'NETCDF4',
+                'NETCDF3_CLASSIC', 'NETCDF4_CLASSIC']
     out = ['NETCDF4']
     if O.disk_format(fs, 'disk3') == 'NETCDF3_CLASSIC' and \
             sum(1 for d in fs['dims'] if d[2]) <= 1:
@@ -256,6 +269,8 @@ def save_formats(fs):
 def draw_query(draw, fs):
     """one query with in-domain arguments for this file"""
     qs = ['repr', 'dump', 'save', 'getCoords']
+    if fs.get('multi_unlimited'):
+        qs += ['save'] * 3
     if fs.get('kind') == 'ioapi':
         qs += ['getTimes'] * 4
     else:
@@ -544,6 +559,8 @@ def _check_op(case, keep):
                                   else 'no-fill')))
         if fs.get('coordkeys'):
             r.label('setCoords-declared')
+        if fs.get('multi_unlimited'):
+            r.label('two-unlimited-dims')
         if fs.get('tflag635'):
             r.label('ioapi:tflag-635')
         qm = fs.get('qmeta') or {}
